@@ -96,6 +96,12 @@ CLAIMS = {
         "text": "put/get/get_mut/remove/drop-coroutine histories over 3 real coroutines x 4 keys against a per-coroutine HashMap model; drop counters prove every value is dropped exactly once and exactly when its owner gives it up, including at coroutine drop.",
         "note": "One value type per key.",
     },
+    "C26": {
+        "engine": "vcore C26",
+        "technique": PBT + ": generated thread counts/offsets with a harness-owned rendezvous inside the creation window (Default::default() / hook H4)",
+        "text": "2..16 real threads first-use one fresh bean name (and, in a fresh child, the factory itself); the rendezvous forces the check-then-create windows to overlap; all returned addresses and a later lookup must agree.",
+        "note": "Real threads: the overlap is forced by the rendezvous and measured, not assumed; detection of other races is probabilistic.",
+    },
     "C28": {
         "engine": "vcore C28",
         "technique": PBT + ": algebraic laws over boundary-biased generated Durations/timevals",
